@@ -2,6 +2,8 @@ use crate::Comp;
 pub mod beans;
 pub mod co;
 pub mod join;
+pub mod once;
+pub mod rt;
 pub mod local;
 pub mod nio;
 pub mod pool;
@@ -33,5 +35,7 @@ pub static ALL: &[Comp] = &[
     Comp { name: "sched", gen: sched::gen, exec: sched::exec, isolate_ms: 10000 },
     Comp { name: "pool", gen: pool::gen, exec: pool::exec, isolate_ms: 15000 },
     Comp { name: "join", gen: join::gen, exec: join::exec, isolate_ms: 15000 },
+    Comp { name: "once", gen: once::gen, exec: once::exec, isolate_ms: 15000 },
+    Comp { name: "rt", gen: rt::gen, exec: rt::exec, isolate_ms: 15000 },
     Comp { name: "pq", gen: queue::gen_pq, exec: queue::exec_pq, isolate_ms: 500 },
 ];
